@@ -31,8 +31,10 @@ def structured(ctx, classes, n_schema, gen, per_class):
     r = gen.r
     for idx in range(n_schema):
         cls = classes[idx]
-        for _ in range(per_class):
-            val = gen.entity(cls)
+        from ..values import describe as _describe
+        has_tags = any(d.tag is not None for d in _describe(cls))
+        for want_default in [None] * per_class + ([True, False] if has_tags else []):
+            val = gen.entity(cls, want_default=want_default)
             inst = to_py(cls, val)
             enc = cc.impl_encode(cls, inst)
             tail = bytes(r.getrandbits(8) for _ in range(r.choice([0, 0, 1, 3])))
